@@ -35,16 +35,8 @@ func relayLockStates(fc *FuncCtx) []LockState {
 }
 
 // chanOpsOn lists send statements and close() calls on expressions whose last selector/ident is name.
-func chanOpsOn(fc *FuncCtx, name string) (sends, closes []int) {
-	isName := func(e ast.Expr) bool {
-		switch x := ast.Unparen(e).(type) {
-		case *ast.Ident:
-			return x.Name == name
-		case *ast.SelectorExpr:
-			return x.Sel.Name == name
-		}
-		return false
-	}
+func chanOpsOn(fc *FuncCtx) (sends, closes []int) {
+	isName := func(e ast.Expr) bool { return isSessChan(fc.Info(), e) }
 	for _, v := range fc.G.V {
 		if ss, ok := v.Node.(*ast.SendStmt); ok && isName(ss.Chan) {
 			sends = append(sends, v.ID)
@@ -79,7 +71,7 @@ func c12R1(p *Prog, r *Report, sites []*relaySite) {
 			return
 		}
 		for _, fc := range allCtxs(p, top) {
-			acc := fc.FieldAccesses(mp("service"), rt, map[string]bool{"table": true})
+			acc := fc.FieldAccesses(mp("service"), rt, map[string]bool{relayTableField(p, rt): true})
 			if len(acc) == 0 {
 				continue
 			}
@@ -100,7 +92,7 @@ func c12R1(p *Prog, r *Report, sites []*relaySite) {
 		}
 		// enqueue under lock
 		st := relayLockStates(s.Recv)
-		sends, _ := chanOpsOn(s.Recv, "natConnSendCh")
+		sends, _ := chanOpsOn(s.Recv)
 		for i, sv := range sends {
 			state := st[sv]
 			// select comm: evaluated at the select head
@@ -135,14 +127,14 @@ func c12R1(p *Prog, r *Report, sites []*relaySite) {
 			r.Check(nb, rule, fmt.Sprintf("%s:enqueue#%d-non-blocking", s.Recv.Name, i), p.posStr(s.Recv.G.V[sv].Node.Pos()), "enqueue is a select with default (drops when full)", "the enqueue can block while the relay mutex is held: one slow session stalls every session and Stop")
 		}
 		if len(sends) == 0 {
-			r.Fail(rule, s.Recv.Name+":enqueue", p.posStr(s.Recv.Body.Pos()), "no enqueue on natConnSendCh found")
+			r.Fail(rule, s.Recv.Name+":enqueue", p.posStr(s.Recv.Body.Pos()), "no enqueue on a session queue found")
 		}
 		// cleanup: close + delete in one critical section
 		cst := relayLockStates(s.Cleanup)
-		_, closes := chanOpsOn(s.Cleanup, "natConnSendCh")
+		_, closes := chanOpsOn(s.Cleanup)
 		var deletes []int
 		for _, cs := range s.Cleanup.AllCalls() {
-			if id, ok := ast.Unparen(cs.Call.Fun).(*ast.Ident); ok && id.Name == "delete" && len(cs.Call.Args) == 2 && strings.HasSuffix(exprStr(cs.Call.Args[0]), ".table") {
+			if id, ok := ast.Unparen(cs.Call.Fun).(*ast.Ident); ok && id.Name == "delete" && len(cs.Call.Args) == 2 && isRelayTable(s.Cleanup.Info(), cs.Call.Args[0]) {
 				deletes = append(deletes, cs.V)
 			}
 		}
@@ -171,7 +163,7 @@ func c12R1(p *Prog, r *Report, sites []*relaySite) {
 		var insKey, delKey string
 		for _, v := range s.Recv.G.V {
 			if as, ok := v.Node.(*ast.AssignStmt); ok && len(as.Lhs) == 1 {
-				if ix, ok := ast.Unparen(as.Lhs[0]).(*ast.IndexExpr); ok && strings.HasSuffix(exprStr(ix.X), ".table") {
+				if ix, ok := ast.Unparen(as.Lhs[0]).(*ast.IndexExpr); ok && isRelayTable(s.Recv.Info(), ix.X) {
 					insKey = exprStr(ix.Index)
 				}
 			}
@@ -186,7 +178,7 @@ func c12R1(p *Prog, r *Report, sites []*relaySite) {
 		drained := false
 		for _, v := range s.Cleanup.G.V {
 			if v.Kind == VRange {
-				if id, ok := ast.Unparen(v.Stmt.(*ast.RangeStmt).X).(*ast.Ident); ok && id.Name == "natConnSendCh" {
+				if isSessChan(s.Cleanup.Info(), v.Stmt.(*ast.RangeStmt).X) {
 					drained = true
 				}
 			}
@@ -338,24 +330,21 @@ func c12R3(p *Prog, r *Report, sites []*relaySite) {
 			continue
 		}
 		fc := s.Session
-		info := fc.Info()
+		_ = fc.Info()
 		var swap *CallSite
 		for _, cs := range fc.AllCalls() {
-			if sel, ok := ast.Unparen(cs.Call.Fun).(*ast.SelectorExpr); ok && sel.Sel.Name == "Swap" {
-				if fs, ok := ast.Unparen(sel.X).(*ast.SelectorExpr); ok && fs.Sel.Name == "state" {
-					c := cs
-					swap = &c
-				}
+			if isAtomicPointerOp(cs.Fn, "Swap") {
+				c := cs
+				swap = &c
 			}
 		}
 		if swap == nil {
 			r.Fail(rule, s.Recv.Name+":init-swap", p.posStr(fc.Body.Pos()), "session initialisation never publishes its socket")
 			continue
 		}
-		old := swap.ResultVar(0)
-		nonNil := fc.TestEdges(func(e ast.Expr) bool { return objOf(info, e) == old }, WantNonNil)
+		nonNil := swap.ResultEdges(0, WantNonNil)
 		bad := ""
-		if old == nil || len(nonNil) == 0 {
+		if len(nonNil) == 0 {
 			bad = "the value swapped out is not examined"
 		}
 		for _, e := range nonNil {
@@ -664,7 +653,7 @@ func c12R6(p *Prog, r *Report, sites []*relaySite) {
 			// the main loop is `for ... range uplink.natConnSendCh` or a receive from it with ok-check
 			ranged := false
 			for _, v := range fc.G.V {
-				if v.Kind == VRange && strings.HasSuffix(exprStr(v.Stmt.(*ast.RangeStmt).X), "natConnSendCh") {
+				if v.Kind == VRange && isSessChan(fc.Info(), v.Stmt.(*ast.RangeStmt).X) {
 					ranged = true
 				}
 			}
@@ -672,7 +661,7 @@ func c12R6(p *Prog, r *Report, sites []*relaySite) {
 				// mmsg variants: `queuedPacket, ok := <-ch; if !ok { break }`
 				for _, v := range fc.G.V {
 					if as, ok := v.Node.(*ast.AssignStmt); ok && len(as.Lhs) == 2 && len(as.Rhs) == 1 {
-						if u, ok := ast.Unparen(as.Rhs[0]).(*ast.UnaryExpr); ok && u.Op == token.ARROW && strings.HasSuffix(exprStr(u.X), "natConnSendCh") {
+						if u, ok := ast.Unparen(as.Rhs[0]).(*ast.UnaryExpr); ok && u.Op == token.ARROW && isSessChan(fc.Info(), u.X) {
 							ranged = true
 						}
 					}
@@ -682,4 +671,9 @@ func c12R6(p *Prog, r *Report, sites []*relaySite) {
 		}
 	}
 	r.Floor(rule, 12)
+}
+
+// isAtomicPointerOp: fn is the named method of sync/atomic.Pointer[T].
+func isAtomicPointerOp(fn *types.Func, name string) bool {
+	return fn != nil && fn.Name() == name && strings.HasPrefix(fn.FullName(), "(*sync/atomic.Pointer[")
 }
